@@ -1,6 +1,11 @@
 package main
 
-import "verifharness/hx"
+import (
+	"os"
+	"strings"
+
+	"verifharness/hx"
+)
 
 // generators run in the order the handlers were taken up; each has its own PRNG fork
 var generators = []func(run *hx.Run, add func(*Case)){
@@ -12,6 +17,15 @@ func generate(run *hx.Run) []*Case {
 	add := func(c *Case) { cases = append(cases, c) }
 	for _, g := range generators {
 		g(run, add)
+	}
+	if only := os.Getenv("C37_ONLY"); only != "" { // development aid: one handler family
+		var f []*Case
+		for _, c := range cases {
+			if strings.HasPrefix(c.H, only) {
+				f = append(f, c)
+			}
+		}
+		return f
 	}
 	return cases
 }
